@@ -369,6 +369,58 @@ def pointer_case(rng):
     return files, [(user, "User", "acc", "81"), (user, "User", "own", "83")]
 
 
+def parallel_trees(rng):
+    """two directory trees whose later path components coincide (v1/models/x, v2/models/x): a reference from one tree into the other
+    must land on the other tree's file although a file of the same name sits next to the referring one"""
+    obj = lambda i, extra=None: {"type": "object", "properties": {f"m{i}": {"type": "integer"}, **(extra or {})}}
+    a, b = rng.choice([("v1", "v2"), ("old", "new"), ("x", "a")])
+    mid = rng.choice(["models", "m"])
+    files = {
+        f"{a}/{mid}/pet.json": {"title": "PetOne", "type": "object", "definitions": {"Pet": obj(0)}},
+        f"{b}/{mid}/pet.json": {"title": "PetTwo", "type": "object", "definitions": {"Pet": obj(1)}},
+        f"{a}/{mid}/migration.json": {"title": "Migration", **obj(2, {"old": {"$ref": "pet.json#/definitions/Pet"},
+                                                                   "new": {"$ref": f"../../{b}/{mid}/pet.json#/definitions/Pet"}})},
+        f"{b}/{mid}/user.json": {"title": "User", **obj(3, {"own": {"$ref": "pet.json#/definitions/Pet"}, "other": {"$ref": f"../../{a}/{mid}/pet.json#/definitions/Pet"}})},
+    }
+    return files, None, [(2, "old", 0), (2, "new", 1), (3, "own", 1), (3, "other", 0)]
+
+
+GQL_ROOTS = [
+    "schema { query: Catalog mutation: CatalogAdmin }\ntype Catalog { items: [Item!]! }\ntype CatalogAdmin { rename(id: ID!): Item }\ntype Item { id: ID! owner: Catalog admin: CatalogAdmin }\n",
+    "schema { query: Root }\ntype Root { me: User }\ntype User { id: ID! home: Root }\n",
+    # (a field typed with the literal Query / Mutation root is known finding C06-graphql-root-type-referenced: replayed, not generated)
+]
+
+
+def check_gql_roots(sdl):
+    """every named object type that some field refers to gets a class - also when it is the schema's query / mutation type"""
+    g = e2e.generate(sdl, file_type="graphql")
+    if g.timeout:
+        return "generate() does not terminate"
+    if not g.ok:
+        return None
+    if e2e.parses(g.text):
+        return "output does not parse"
+    import re
+    tree = ast.parse(g.text)
+    classes = {n.name for n in tree.body if isinstance(n, ast.ClassDef)}
+    declared = set(re.findall(r"^type (\w+)", sdl, flags=re.M))
+    used = set()
+    for n in ast.walk(tree):
+        if isinstance(n, ast.AnnAssign):
+            ann = n.annotation
+            if isinstance(ann, ast.Constant) and isinstance(ann.value, str):
+                try:
+                    ann = ast.parse(ann.value, mode="eval").body
+                except SyntaxError:
+                    continue
+            used |= {x.id for x in ast.walk(ann) if isinstance(x, ast.Name)}
+    dangling = sorted((used & declared) - classes)
+    if dangling:
+        return f"members are typed with {dangling}, named types of the document for which no class is generated"
+    return None
+
+
 def falsify(ctx):
     rng = ctx.rng("fals")
     seen = 0
@@ -414,7 +466,7 @@ def falsify(ctx):
                         ctx.violation(f"shared:{json.dumps([names, pat, container, use_first])}", f"{names} content {pat} in {container}: {why}",
                                       {"shared": [names, list(pat), container, use_first], "why": why})
     for _ in range(ctx.n(6, 40)):
-        for maker in (tree_case, multi_file_collision, dir_lookalike, anchor_case):
+        for maker in (tree_case, multi_file_collision, dir_lookalike, anchor_case, parallel_trees):
             files, entry, expect = maker(rng)
             ctx.count("eval_e2e")
             ctx.nontrivial(json.dumps(sorted(files)))
@@ -434,6 +486,13 @@ def falsify(ctx):
                 seen += 1
                 if seen <= 8:
                     ctx.violation(f"pointer:{json.dumps(sorted(files))}:{sorted(opts)}", f"pointer_case {sorted(files)} {opts}: {why}", {"pointer": [files, expect, opts], "why": why})
+    for sdl in GQL_ROOTS:
+        ctx.count("eval_e2e")
+        ctx.nontrivial("gql:" + sdl)
+        why = check_gql_roots(sdl)
+        if why:
+            seen += 1
+            ctx.violation(f"gql-roots:{sdl[:60]}", f"GraphQL {sdl!r}: {why}", {"gql": sdl, "why": why})
     ctx.sample({"names": combos[0]})
 
 
@@ -446,6 +505,8 @@ def replay_finding(ctx, f):
     r = f["replay"]
     if "shared" in r:
         return _shared(r) is not None
+    if "gql" in r:
+        return check_gql_roots(r["gql"]) is not None
     if "pointer" in r:
         a = r["pointer"]
         return check_pointer_tree(a[0], [tuple(x) for x in a[1]], a[2]) is not None
@@ -460,6 +521,8 @@ def replay(ctx, payload):
     r = payload.get("replay", payload)
     if "shared" in r:
         why = _shared(r)
+    elif "gql" in r:
+        why = check_gql_roots(r["gql"])
     elif "pointer" in r:
         a = r["pointer"]
         why = check_pointer_tree(a[0], [tuple(x) for x in a[1]], a[2])
